@@ -1607,6 +1607,8 @@ func (g *Gen) frameAllowed() (all bool, allowed []frameLoc) {
 		switch {
 		case a.All:
 			g.frameAll = true
+		case a.Elems:
+			g.frameElems = true
 		case a.Map != "":
 			g.frameLocs = append(g.frameLocs, frameLoc{g.resolveMapName(a.Map), ""})
 		default:
@@ -1623,6 +1625,9 @@ func (g *Gen) frameAllowed() (all bool, allowed []frameLoc) {
 func (g *Gen) frameGoal(k, cur string) (string, bool) {
 	all, allowed := g.frameAllowed()
 	if all || strings.HasPrefix(k, "$") {
+		return "", false
+	}
+	if g.frameElems && (strings.HasPrefix(k, "E_") || strings.HasPrefix(k, "C_")) {
 		return "", false
 	}
 	ent := "H0_" + k
